@@ -4,8 +4,10 @@ import (
 	"encoding/json"
 	"fmt"
 	"math/rand/v2"
+	"os"
 	"sort"
 	"strings"
+	"time"
 
 	"verif/harness/sim"
 )
@@ -28,7 +30,12 @@ func (cc *caseCheck) run(u *Unit) {
 	}
 	for j := 0; j < n; j++ {
 		c := cc.gen(u.Rng, u.Tier)
+		curCase = c
+		t0 := time.Now()
 		res := Execute(c)
+		if d := time.Since(t0); d > 10*time.Second {
+			fmt.Fprintf(os.Stderr, "SLOW-RUN: %s unit %d case seed %d took %v, steps %d, sim %.0fs, stepcap=%v\n", cc.id, u.Index, c.Seed, d, res.Steps, res.Sim.Elapsed().Seconds(), res.Sim.StepCapHit)
+		}
 		u.Rep.Evals++
 		u.Rep.addStats(res)
 		u.Rep.Hashes = append(u.Rep.Hashes, res.Hash)
@@ -170,6 +177,13 @@ func (cc *caseCheck) minimise(v Violation) Violation {
 	try := func(cand Case) bool {
 		if ok, m, h := fails(&cand); ok {
 			best, bestMsg, bestHash = cand, m, h
+			if minimiseCheckpoint != "" {
+				cp := v
+				cp.Payload = mustJSON(best)
+				cp.Msg = bestMsg + fmt.Sprintf("\n(minimised: %d phases, %d faults)", len(best.Phases), len(best.Faults))
+				cp.Hash = bestHash
+				os.WriteFile(minimiseCheckpoint, mustJSON(cp), 0o644)
+			}
 			return true
 		}
 		return false
